@@ -46,6 +46,18 @@ def skewed_text():
             "dm_dt = a_tau - b_gate*m + z_first\ndv_dt = -v + b_gate\n")
 
 
+def hp_eval(expr, syms, args):
+    """value of a sympy expression at a point with 60 digits and sympy's unbounded exponent range"""
+    try:
+        v = expr.xreplace({s_: sympy.Float(repr(float(a_)), 60) for s_, a_ in zip(syms, args)})
+        v = sympy.N(v, 60)
+        if v.is_real is False or not v.is_number:
+            return None
+        return float(v)
+    except Exception:  # noqa: BLE001
+        return None
+
+
 def check_text(rep, drv, rng, text, model=None, points=None):
     c = pipeline.Case(drv, text, model)
     if c.err is not None:
@@ -115,7 +127,16 @@ def check_text(rep, drv, rng, text, model=None, points=None):
         S = float(max(1.0, np.max(np.abs(rv)), max([abs(x) for x in st] + [1.0])))
         for i, s in enumerate(ss):
             if not close(float(fv[i]), float(rv[i]), S, 1e-8):
-                fail(f"rhs_matrix[{i}] = {fv[i]!r} but the generated rhs gives d{s}_dt = {rv[i]!r}", inputs=pt)
+                # the property is about the symbolic matrix as a function on the reals: float64 evaluation of an
+                # equal expression may overflow where the generated code does not (sympy re-evaluates
+                # exp(a - 1e6) into 3.3e-434295*exp(a) when substituting).  Decide with 60-digit arithmetic
+                # and an unbounded exponent range.
+                hp = hp_eval(F[i], syms, args)
+                rep.count("decided_in_high_precision")
+                if hp is not None and close(hp, float(rv[i]), S, 1e-8):
+                    fv[i] = hp
+                    continue
+                fail(f"rhs_matrix[{i}] = {fv[i]!r} (60 digits: {hp!r}) but the generated rhs gives d{s}_dt = {rv[i]!r}", inputs=pt)
         # the mirror
         if issue is None:
             mr = drv.ask(["symrhs", "default", isx])
@@ -156,6 +177,18 @@ def main(argv=None):
     drv = core.Driver()
     rng = random.Random(a.seed)
     core.CASE_SECONDS = 90
+    if a.replay:
+        import json as _json
+        import textmodel
+        data = _json.load(open(a.replay))
+        text = data["text"]
+        c0 = pipeline.Case(drv, text)
+        m = textmodel.model_from_items(c0.captured) if c0.err is None else None
+        pts = [data["inputs"]] if isinstance(data.get("inputs"), dict) and "states" in data["inputs"] else None
+        core.guarded(rep, text, check_text, rep, drv, rng, text, m, pts)
+        rep.case(key=text, nontrivial=True)
+        drv.close()
+        return rep.finish(level="proof", rule="replay of " + a.replay, trusted_base=["see the full check"])
     depths = [1, 5, 19, 20, 21, 33] if a.tier == "quick" else list(range(1, 46, 2))
     for d in depths:
         for rev in (False, True):
